@@ -247,7 +247,7 @@ def cfg0 : Cfg :=
     minLock := 0, spMinStake := fun _ => 10000000000 }
 
 def sp0 : SP :=
-  { pools := [(41, ⟨10000000000000, 0, 1700000000⟩), (42, ⟨3330000000007, 0, 1700000000⟩)], reward := 0,
+  { pools := [(41, ⟨10000000000000, 0, 1700000000, false⟩), (42, ⟨3330000000007, 0, 1700000000, false⟩)], reward := 0,
     wallet := some 50, maxDelegates := 10, minStake := 10000000000, ratio := tenth, dead := false, offers := 0 }
 
 /-- blobber 30 (delegate wallet 50, two delegates) and miner 10. -/
@@ -259,7 +259,7 @@ def s0 : State :=
 
 /-- the dead, slashed (× 0.75) copy of `sp0`. -/
 def sp0Dead : SP :=
-  { sp0 with dead := true, pools := [(41, ⟨7500000000000, 0, 1700000000⟩), (42, ⟨2497500000005, 0, 1700000000⟩)] }
+  { sp0 with dead := true, pools := [(41, ⟨7500000000000, 0, 1700000000, false⟩), (42, ⟨2497500000005, 0, 1700000000, false⟩)] }
 
 /-- `shutdown_blobber` with the OLD save key `clientId`. -/
 def oldShutdownTxn (cfg : Cfg) (s : State) (r : Req) : State × Status :=
@@ -290,10 +290,10 @@ example : ∃ m E, reduction (halfSlash cfg0) = .fin false m E ∧ m * 2 ^ E ≤
 /-- non-vacuity of `kill_disable_effect` / `shutdownK_disable_effect` on the same state. -/
 example : spKill sp0 (halfSlash cfg0) = .ok sp0Dead := by decide +kernel
 example : spKill sp0 cfg0.killSlash =
-    .ok { sp0 with dead := true, pools := [(41, ⟨5000000000000, 0, 1700000000⟩), (42, ⟨1665000000003, 0, 1700000000⟩)] } := by
+    .ok { sp0 with dead := true, pools := [(41, ⟨5000000000000, 0, 1700000000, false⟩), (42, ⟨1665000000003, 0, 1700000000, false⟩)] } := by
   decide +kernel
 example : kvGet (killTxn cfg0 .blobber s0 ⟨3, 30⟩).1.sps (.blobber, 30) =
-    some { sp0 with dead := true, pools := [(41, ⟨5000000000000, 0, 1700000000⟩), (42, ⟨1665000000003, 0, 1700000000⟩)] } := by
+    some { sp0 with dead := true, pools := [(41, ⟨5000000000000, 0, 1700000000, false⟩), (42, ⟨1665000000003, 0, 1700000000, false⟩)] } := by
   decide +kernel
 
 /-! ## miners and sharders -/
@@ -547,7 +547,7 @@ theorem oldKey_shutdown_still_rewarded_witness :
     (payReward (oldShutdownTxn cfg0 s0 ⟨50, 30⟩).1 .blobber 30 1000000).toOption.bind
         (fun s => kvGet s.sps (.blobber, 30)) =
       some { sp0 with reward := 100000,
-                      pools := [(41, ⟨10000000000000, 675169, 1700000000⟩), (42, ⟨3330000000007, 224831, 1700000000⟩)] } := by
+                      pools := [(41, ⟨10000000000000, 675169, 1700000000, false⟩), (42, ⟨3330000000007, 224831, 1700000000, false⟩)] } := by
   decide +kernel
 
 /-! ## unauthorised_noop -/
